@@ -364,6 +364,7 @@ const (
 type signerSpec struct {
 	Kind  int
 	Chain *big.Int // skChainID only
+	Via   int      // which public constructor builds the real signer (tx.go); irrelevant to the rule
 }
 
 // refTxRule applies the property's acceptance rule to signature values offered under
